@@ -28,17 +28,16 @@ TRUST = [
     "otherwise validity and cost (tolerance 1e-9); sqrt inside np.linalg.norm is outside the model (Model/Metric.v is about squared distances)",
     "optimality on the implementation is compared with an independent float Dijkstra of the harness (support, not proof); C11_astar_* theorems are about the exact-arithmetic model",
 ]
-ASSUMPTIONS = ["connected lattice (vertex graph resp. plaquette-adjacency graph); heuristic strictly positive between distinct adjacent nodes (distinct centres)",
+ASSUMPTIONS = ["connected lattice (vertex graph resp. plaquette-adjacency graph; tree-like lattices included); heuristic strictly positive between distinct adjacent nodes (distinct centres)",
                "metric points in [0,1)^2 for the periodic metric clauses"]
 
 MARGIN = 1e-9
 TOL = 1e-9
-# A full search (early_stopping=False) needs n_edges + 1 iterations on tree-like lattices (theorem
-# C11_budget_n_edges_full_search_refuted; on /repo: a 3-vertex chain, honeycomb_lattice(2) cut in x and y, a quadrilateral with
-# a 2-edge tail).  Those lattices are outside the quantified families (no plaquette / not a Voronoi lattice, tiling or cut of
-# one), so by default the probes are recorded in the evidence and K-compared only.  Set to True to report them as
-# violations (stable key "full-search-needs-n_edges-plus-1") if the lead decides the literal statement is the contract.
-REPORT_FULL_SEARCH_BUDGET = False
+# Since fix 475bcae maxits bounds the number of expanded nodes (popping the goal is free), so maxits = n_edges is enough in BOTH
+# stopping modes on every connected lattice (theorems C11_astar_budget / C11_astar_budget_full).  Tree-like lattices
+# (V = E + 1: chains, stars, xy-cuts of small tilings, a quadrilateral with a tail), where the budget is tight, are part of the
+# generators; a PathFindingError there is reported like any other (key "path-not-found-within-n_edges").
+REPORT_FULL_SEARCH_BUDGET = True
 METRICS = {"euclid": pf.straight_line_length, "periodic": pf.periodic_straight_line_length}
 
 
@@ -169,12 +168,19 @@ def c11_cases(tier, seed):
             cases.append({"family": "cut", "base": b, "cut": cut})
     for name in ["two_triangles", "tri_square_pent", "tutte_graph", "bridge_graph"]:
         cases.append({"family": "example", "name": name})
-    # out-of-domain probes (no plaquette / tree-like vertex graph): a full search (early_stopping=False) needs n_edges+1
-    # iterations on a tree, so maxits = n_edges is NOT enough there; recorded in the evidence, K-compared, not a violation
-    cases.append({"family": "cut", "base": {"family": "example", "name": "honeycomb_lattice", "args": [2]}, "cut": [True, True], "probe": True})
-    cases.append({"family": "raw", "positions": [[0.1, 0.5], [0.5, 0.5], [0.9, 0.5]], "edges": [[0, 1], [1, 2]], "crossing": [[0, 0], [0, 0]], "probe": True})
+    # tree-like lattices (V = E + 1, the budget maxits = n_edges is tight there) and a cycle with a tail
+    cases.append({"family": "cut", "base": {"family": "example", "name": "honeycomb_lattice", "args": [2]}, "cut": [True, True]})
+    cases.append({"family": "cut", "base": {"family": "example", "name": "square_lattice", "args": [2, 2]}, "cut": [True, True]})
+    cases.append({"family": "raw", "positions": [[0.1, 0.5], [0.5, 0.5], [0.9, 0.5]], "edges": [[0, 1], [1, 2]], "crossing": [[0, 0], [0, 0]]})
+    k = 7
+    cases.append({"family": "raw", "positions": [[0.08 + 0.12 * i, 0.3 + 0.05 * (i % 2)] for i in range(k)],
+                  "edges": [[i, i + 1] for i in range(k - 1)], "crossing": [[0, 0]] * (k - 1)})                       # chain
+    cases.append({"family": "raw", "positions": [[0.5, 0.5]] + [[0.5 + 0.35 * math.cos(2.1 * i + 0.3), 0.5 + 0.35 * math.sin(2.1 * i + 0.3)] for i in range(5)],
+                  "edges": [[0, i + 1] for i in range(5)], "crossing": [[0, 0]] * 5})                                  # star
+    cases.append({"family": "raw", "positions": [[0.5, 0.5], [0.3, 0.6], [0.7, 0.65], [0.2, 0.8], [0.35, 0.85], [0.75, 0.9], [0.9, 0.6], [0.5, 0.2]],
+                  "edges": [[0, 1], [0, 2], [1, 3], [1, 4], [2, 5], [2, 6], [0, 7]], "crossing": [[0, 0]] * 7})        # binary tree
     cases.append({"family": "raw", "positions": [[0.05, 0.1], [0.1, 0.15], [0.1, 0.055], [0.15, 0.1], [0.55, 0.1], [0.55, 0.6]],
-                  "edges": [[0, 1], [0, 2], [1, 3], [2, 3], [3, 4], [4, 5]], "crossing": [[0, 0]] * 6, "probe": True})
+                  "edges": [[0, 1], [0, 2], [1, 3], [2, 3], [3, 4], [4, 5]], "crossing": [[0, 0]] * 6})                # quadrilateral with a tail
     return cases
 
 
@@ -206,7 +212,7 @@ def run_impl(lat, kind, s, g, metric, early, maxits):
         return ("X", f"{type(e).__name__}: {e}")
 
 
-def eval_combo(ctx, case, lat, kind, metric, pairs, rng, label, maxits=None, probe=False):
+def eval_combo(ctx, case, lat, kind, metric, pairs, rng, label, maxits=None):
     """one lattice, one graph kind, one metric: all given (start, goal) pairs, both stopping modes"""
     res = ctx.res
     n = lat.n_plaquettes if kind == "plaq" else lat.n_vertices
@@ -260,21 +266,6 @@ def eval_combo(ctx, case, lat, kind, metric, pairs, rng, label, maxits=None, pro
             res.violation("path-crash", f"{kind} path {s}->{g} metric={metric} early={early}: {r[1]}", rcase)
             continue
         if r[0] == "E":
-            if probe and not early and REPORT_FULL_SEARCH_BUDGET:
-                res.violation("full-search-needs-n_edges-plus-1",
-                              f"{kind} path {s}->{g} metric={metric} early_stopping=False maxits=n_edges={maxits} on a connected lattice: PathFindingError (n_edges+1 iterations are needed)", rcase)
-                continue
-            if probe and not early:
-                # out-of-domain probe (tree-like lattice), full search: needs n_edges + 1 iterations (C11_budget_n_edges_full_search_refuted);
-                # recorded, not a violation; K: the model must fail too (or be a near-tie).  With early stopping n_edges iterations
-                # are enough on every connected graph, trees included, so a failure there IS reported below.
-                pr = res.extra.setdefault("budget_probe_full_search_not_found_with_maxits_n_edges", [])
-                if len(pr) < 6:
-                    pr.append({"lattice": case, "kind": kind, "metric": metric, "start": s, "goal": g, "early": early, "n_edges": lat.n_edges})
-                if m[0] == "P" and (m[1] == "N" or unhx(m[1]) / S > MARGIN):
-                    ctx.k_mismatch(f"{label}: implementation raised PathFindingError, model found a path; {kind} {s}->{g} {metric} early={early}", rcase)
-                res.traces += 1
-                continue
             res.violation("path-not-found-within-n_edges" if maxits == lat.n_edges else "path-not-found",
                           f"{kind} path {s}->{g} metric={metric} early_stopping={early} maxits={maxits} on a connected graph: PathFindingError", rcase)
             continue
@@ -363,11 +354,9 @@ def evaluate(ctx, cases, label, all_pairs_max, n_random, only=None):
             res.skip("generator-could-not-build-lattice")
             continue
         rng = np.random.default_rng([ctx.seed, 1100 + ci])
-        # domain (property quantifier): lattices with at least one plaquette whose plaquette-adjacency graph is connected
-        probe = bool(case.get("probe"))
-        if not probe and (lat.n_plaquettes == 0 or components(lat.n_plaquettes, own_graph(lat, "plaq")) != 1):
-            res.skip("plaquette-graph-empty-or-not-connected")
-            continue
+        # domain: "a path between two plaquettes (or two vertices) of a connected lattice": the vertex graph of every lattice whose
+        # vertex graph is connected (tree-like lattices without plaquettes included, lead decision with fix 475bcae); the plaquette
+        # graph of lattices with at least one plaquette whose plaquette-adjacency graph is connected
         for kind in ("plaq", "vert"):
             n = lat.n_plaquettes if kind == "plaq" else lat.n_vertices
             if n == 0:
@@ -381,7 +370,7 @@ def evaluate(ctx, cases, label, all_pairs_max, n_random, only=None):
             for metric in ("euclid", "periodic"):
                 if only and (kind, metric) != only:
                     continue
-                eval_combo(ctx, case, lat, kind, metric, pairs, rng, label, probe=probe)
+                eval_combo(ctx, case, lat, kind, metric, pairs, rng, label)
 
 
 # ------------------------------------------------------------------ metrics
@@ -454,7 +443,7 @@ def eval_metrics(ctx, pts, label):
 # ------------------------------------------------------------------ entry points
 def run(ctx):
     ctx.res.rule = ("lattices: tilings, periodic Voronoi (9..120 seeds quick / ..400 thorough, 4 point styles, both shift settings), their x/y/xy cuts, small example graphs; "
-                    "graphs not connected are skipped; per lattice x {plaquette graph, vertex graph} x {euclid, periodic} x {early, full}: all ordered (start, goal) pairs "
+                    "tree-like lattices (chain, star, binary tree, xy-cuts of small tilings, quadrilateral with a tail); graphs not connected are skipped; per lattice x {plaquette graph, vertex graph} x {euclid, periodic} x {early, full}: all ordered (start, goal) pairs "
                     "when the graph has <= 16 (quick) / 40 (thorough) nodes, random pairs + start==goal otherwise, maxits = n_edges; metrics: 600/6000 exact dyadic point pairs in [0,1)^2 "
                     "incl. grid points, coincident and boundary-hugging pairs; non-trivial = start != goal (resp. distinct points)")
     quick = ctx.tier == "quick"
@@ -475,5 +464,4 @@ def replay(ctx, payload):
         return
     lat = build_lattice(case["lattice"])
     rng = np.random.default_rng([ctx.seed, 1])
-    eval_combo(ctx, case["lattice"], lat, case["kind"], case["metric"], [tuple(p) for p in case["pairs"]], rng, "replay", maxits=case.get("maxits"),
-               probe=bool(case["lattice"].get("probe")))
+    eval_combo(ctx, case["lattice"], lat, case["kind"], case["metric"], [tuple(p) for p in case["pairs"]], rng, "replay", maxits=case.get("maxits"))
